@@ -252,7 +252,15 @@ func sortParts(s string) string {
 
 // canonLogKey is the no-abstraction state key: the whole normalised history.
 func canonLogKey(w *core.Worker, st core.Store) (string, interface{}) {
-	return core.CanonLog(st.Log()) + "|" + st.LogName(), nil
+	k := core.CanonLog(st.Log()) + "|" + st.LogName()
+	var other []string
+	for f, b := range st { // leftovers of crashed rewrites etc. are part of the state
+		if strings.HasPrefix(f, ".ergo/") && f != st.LogName() && f != ".ergo/lock" {
+			other = append(other, f+"="+core.CanonLog(b))
+		}
+	}
+	sort.Strings(other)
+	return k + "|" + strings.Join(other, ","), nil
 }
 
 // graphKey is the canonical labelled graph of a store as a reader sees it: items in creation order,
